@@ -130,6 +130,8 @@ var aclProbes = []probe{
 	{"getdel", func(a []string) []string { return []string{"GETDEL", a[0]} }, 1, "keys"},
 	{"strlen", func(a []string) []string { return []string{"STRLEN", a[0]} }, 1, "keys"},
 	{"append", func(a []string) []string { return []string{"APPEND", a[0], "z"} }, 1, "keys"},
+	{"zinter", func(a []string) []string { return []string{"ZINTER", a[0], a[1], "WITHSCORES"} }, 2, "keys"},
+	{"zunion", func(a []string) []string { return []string{"ZUNION", a[0], a[1], "WITHSCORES"} }, 2, "keys"},
 	{"publish", func(a []string) []string { return []string{"PUBLISH", a[0], "msg"} }, 1, "chans"},
 	{"flushdb", func(a []string) []string { return []string{"FLUSHDB"} }, 0, "none"},
 	{"lastsave", func(a []string) []string { return []string{"LASTSAVE"} }, 0, "none"},
@@ -422,6 +424,15 @@ func runACLHistory(tr *Trace, h int, r *rand.Rand, length int, cfgFile string, t
 			p := pick(r, aclProbes)
 			if r.Intn(6) == 0 {
 				p = aclProbes[20] // getdel: the same key is read and written
+			} else if r.Intn(4) == 0 {
+				// commands with several keys: each position must be checked
+				multi := []string{"mget", "mset", "del", "lmove", "sunion", "sinterstore", "rename", "zinter", "zunion"}
+				want := pick(r, multi)
+				for _, q := range aclProbes {
+					if q.name == want {
+						p = q
+					}
+				}
 			}
 			var a []string
 			for k := 0; k < p.n; k++ {
